@@ -258,6 +258,24 @@ func (r *Run) Finish() int {
 				why += fmt.Sprintf("; with the %d earlier requests of its executor: %s", len(c.Hist), why2)
 			}
 		}
+		if !ok && c.Sig == "timeout" && !strings.HasPrefix(why, "no result") {
+			// the case ran into the executor's time limit once and completes in a fresh executor: twice more, and if it
+			// completes every time the machine was slow (other work on it), the library did not hang
+			slow := true
+			for k := 0; k < 2 && slow; k++ {
+				ok2, why2 := Reproduce(c)
+				if ok2 {
+					ok, why, slow = true, why2, false
+				} else if why2 == "no result" {
+					slow = false
+				}
+			}
+			if slow {
+				r.Extra["slow_cases_completed_on_retry"] = toInt(r.Extra["slow_cases_completed_on_retry"]) + 1
+				fmt.Fprintf(os.Stderr, "NOTE: a case of class=%s exceeded the executor's time limit once and completed in three fresh executors (slow machine)\n", c.Class)
+				continue
+			}
+		}
 		if !ok {
 			r.infra = append(r.infra, fmt.Sprintf("candidate class=%s sig=%s did not reproduce in a fresh executor (%s): %s", c.Class, c.Sig, why, c.Detail))
 			fmt.Fprintln(os.Stderr, "INFRA:", r.infra[len(r.infra)-1])
